@@ -11,7 +11,7 @@ for i in 20 19 18 17 16 15 14 13 12 11 10 09 08 07; do
     out=$OUT/C${i}_$k.json
     [ -s "$out" ] && continue
     flags="-fsanitize=address,undefined"; [ $i = 19 ] && flags="-fsanitize=thread"
-    python3 "$HERE/eval_mutant.py" "$d" C$i --demo-flags="$flags" > "$out" 2>&1
+    python3 "$HERE/eval_mutant.py" "$d" C$i --demo-flags="$flags" ${FALLBACK_BASE:+--fallback-base $FALLBACK_BASE} > "$out" 2>&1
   done
 done
 echo ALLDONE > "$OUT/DONE_rev"
